@@ -20,6 +20,15 @@ theorem cfg_good : cfg.Good := by refine ⟨?_, ?_, ?_⟩ <;> decide
     `run` sits inside `with _wn.lock`, the bodies of `cache_clear`/`cache_info` inside `with self.lock`. -/
 theorem cfg_good_conc : cfg.GoodConc := by refine ⟨?_, ?_⟩ <;> decide
 
+/-- good configuration for the two forms of `disk_io_counters`: the per-disk form has its own
+    `name`, and `disk_io_counters.cache_clear()` clears it too -/
+def Cfg.FormsGood (c : Cfg) : Prop := c.formsSeparate = true ∧ c.clearPer = true
+
+/-- obligation fed by the facts `diskPerName` / `diskClearNames`: it breaks when the per-disk and
+    the system-wide form of `disk_io_counters` go back to one shared cache name (the defect fixed
+    by /repo a52899b), or when `cache_clear()` stops clearing the per-disk name. -/
+theorem cfg_forms_good : cfg.FormsGood := by refine ⟨?_, ?_⟩ <;> decide
+
 /-! ## The property -/
 
 /-- **C10_refines.** After *any* history `h` of calls (either function, either `nowrap`
@@ -237,17 +246,14 @@ theorem C10_total_drops_when_device_vanishes :
 
 /-! ## The two forms of `disk_io_counters` on Linux -/
 
-/-- good configuration for the two forms: the per-disk form has its own `name`, and
-    `disk_io_counters.cache_clear()` clears it too -/
-def Cfg.FormsGood (c : Cfg) : Prop := c.formsSeparate = true ∧ c.clearPer = true
-
 /-- the front end as found at the baseline commit: one `name` for both forms of
     `disk_io_counters`, while on Linux the system-wide form is computed from whole disks only -/
 def sharedCfg : Cfg := { emptyFeedsWrap := true, strictLess := true, namesDistinct := true }
 
 /-- **Full statement**: a disk the kernel lists at every call never sees a counter of its
     per-disk tuple decrease from one `perdisk=True` call to the next, whatever system-wide calls
-    of the same function happen in between. -/
+    of the same function happen in between. No hypothesis on the history before, on tuple widths
+    or on the listings; `i < v2.length` only says that the later tuple has a field `i`. -/
 def C10_present_monotone_Full (c : Cfg) : Prop :=
   ∀ (fh : List FOp) (l1 l2 : Listing) (mid : List Listing) (k : Key) (i : Nat) (r1 r2 : Raw)
     (v1 v2 : List Nat),
@@ -255,7 +261,7 @@ def C10_present_monotone_Full (c : Cfg) : Prop :=
     (fstep c (frun c St.init fh) (.call ⟨.disk, true, true, l1⟩)).2 = .dict r1 →
     (fstep c (frun c St.init (fh ++ .call ⟨.disk, true, true, l1⟩
         :: mid.map fun l => .call ⟨.disk, true, false, l⟩)) (.call ⟨.disk, true, true, l2⟩)).2 = .dict r2 →
-    r1.lookup k = some v1 → r2.lookup k = some v2 → tupleAt v1 i ≤ tupleAt v2 i
+    r1.lookup k = some v1 → r2.lookup k = some v2 → i < v2.length → tupleAt v1 i ≤ tupleAt v2 i
 
 /-- **C10_forms_share_history_counterexample.** With one shared `name` the full statement is
     false: per-disk `{sda:100, sda1:100}`, `{sda:10, sda1:10}` (both wrapped: 110), system-wide call
@@ -267,9 +273,109 @@ theorem C10_forms_share_history_counterexample : ¬ C10_present_monotone_Full sh
     [("sda", true, [10]), ("sda1", false, [10])] [("sda", true, [12]), ("sda1", false, [12])]
     [[("sda", true, [11]), ("sda1", false, [11])]] "sda1" 0
     [("sda", [110]), ("sda1", [110])] [("sda", [112]), ("sda1", [12])] [110] [12]
-    (by decide) (by decide) (by decide) (by decide) (by decide)
+    (by decide) (by decide) (by decide) (by decide) (by decide) (by decide)
   revert this
   decide
+
+/-- **C10_present_monotone.** For the repaired front end (per-disk form with its own `name`) the
+    full statement holds — after *any* history, for *any* listings (no width or uniqueness
+    hypothesis), with any number of system-wide calls in between. -/
+theorem C10_present_monotone (c : Cfg) (hc : c.Good) (hf : c.FormsGood) :
+    C10_present_monotone_Full c := by
+  intro fh l1 l2 mid k i r1 r2 v1 v2 hlisted h1 h2 hv1 hv2 hi
+  have hslotP : slot c .diskPer = .diskPer := slot_good c hc _
+  have hslotD : slot c .disk = .disk := slot_good c hc _
+  have hso : slotOf c .disk true = .diskPer := by simp [slotOf, hf.1]
+  -- first per-disk call
+  simp only [fstep, hso, platRaw_perdev] at h1 h2
+  have h1' := shape_true_dict h1
+  have h2' := shape_true_dict h2
+  obtain ⟨hr1, hs1, _⟩ := step_call_dict c _ _ _ _ h1'
+  -- the state in which the second per-disk call runs
+  have hmid : ∀ (ms : List Listing) (s : St),
+      (frun c s (ms.map fun l => FOp.call ⟨.disk, true, false, l⟩)).get .diskPer = s.get .diskPer := by
+    intro ms
+    induction ms with
+    | nil => intro s; rfl
+    | cons m ms ih =>
+      intro s
+      simp only [List.map_cons, frun]
+      rw [ih]
+      simp only [fstep, slotOf, Bool.and_false, Bool.false_eq_true, if_false]
+      exact step_call_get_other c s .disk .diskPer true _ (by rw [hslotD]; decide)
+  have hstate : (frun c St.init (fh ++ FOp.call ⟨.disk, true, true, l1⟩
+        :: mid.map fun l => FOp.call ⟨.disk, true, false, l⟩)).get .diskPer
+      = (run c ((frun c St.init fh).get .diskPer) (l1.map fun e => (e.1, e.2.2))).1 := by
+    rw [frun_append]
+    simp only [frun]
+    rw [hmid]
+    simp only [fstep, hso, platRaw_perdev]
+    rw [hs1, hslotP, get_set_same]
+  obtain ⟨hr2, _, hwm⟩ := step_call_dict c _ _ _ _ h2'
+  rw [hslotP, hstate] at hr2 hwm
+  rw [hslotP] at hr1
+  -- name the pieces
+  generalize (frun c St.init fh).get .diskPer = w0 at hr1 hr2 hwm
+  generalize hraw1 : (l1.map fun e => (e.1, e.2.2)) = raw1 at hr1 hr2 hwm
+  generalize hraw2 : (l2.map fun e => (e.1, e.2.2)) = raw2 at hr2 hwm
+  obtain ⟨o1, ho1⟩ := lookup_listed l1 k (hlisted l1 (by simp))
+  obtain ⟨o2, ho2⟩ := lookup_listed l2 k (hlisted l2 (by simp))
+  rw [hraw1] at ho1
+  rw [hraw2] at ho2
+  have hwm' := hwm raw1 (run_cache c w0 raw1)
+  -- the second result: cache is `raw1`
+  have hrun2 : (run c (run c w0 raw1).1 raw2).2
+      = outOf raw1 raw2 (remAfter c raw1 raw2 (run c w0 raw1).1.rem) := by
+    have run_some : ∀ (w : WN) (old raw : Raw), w.cache = some old →
+        (run c w raw).2 = outOf old raw (remAfter c old raw w.rem) := by
+      intro w old raw h
+      simp only [run, h]
+    exact run_some _ raw1 raw2 (run_cache c w0 raw1)
+  rw [hrun2] at hr2
+  subst hr2
+  rw [lookup_outOf, ho2, ho1] at hv2
+  simp only [Option.map_some, Option.some.injEq] at hv2
+  subst hv2
+  have hi2 : i < o2.length := by simpa using hi
+  have hi1 : i < o1.length := by
+    have hm := mem_of_lookup ho2
+    unfold widthMismatch at hwm'
+    rw [List.any_eq_false] at hwm'
+    have := hwm' _ hm
+    simp only [ho1, decide_eq_true_eq] at this
+    omega
+  rw [tupleAt_mapIdx_eq o2 _ i hi2]
+  simp only [remAfter, ho1, ho2]
+  -- the first result
+  have hv1le : tupleAt v1 i ≤ tupleAt o1 i + (run c w0 raw1).1.rem k i := by
+    cases hc0 : w0.cache with
+    | none =>
+      simp only [run, hc0] at hr1
+      subst hr1
+      rw [ho1] at hv1
+      simp only [Option.some.injEq] at hv1
+      subst hv1
+      exact Nat.le_add_right _ _
+    | some old =>
+      simp only [run, hc0] at hr1 ⊢
+      subst hr1
+      rw [lookup_outOf, ho1] at hv1
+      simp only [Option.map_some, Option.some.injEq] at hv1
+      subst hv1
+      cases old.lookup k with
+      | none => exact Nat.le_add_right _ _
+      | some _ => exact tupleAt_mapIdx_le o1 _ i
+  by_cases hwr : wrapped c (tupleAt o2 i) (tupleAt o1 i) = true
+  · rw [if_pos hwr]; omega
+  · rw [if_neg hwr]
+    have : tupleAt o1 i ≤ tupleAt o2 i := by
+      simp only [wrapped] at hwr
+      split at hwr <;> simp at hwr <;> omega
+    omega
+
+/-- … instantiated for the front end as extracted from the current source. -/
+theorem C10_present_monotone_cfg : C10_present_monotone_Full cfg :=
+  C10_present_monotone cfg cfg_good cfg_forms_good
 
 /-- system-wide calls of `disk_io_counters` never touch the slot `diskPer` (the one the per-disk
     form uses once it has its own `name`): they leave its snapshot list unchanged. -/
